@@ -166,8 +166,11 @@ def disassemble(args, byte_lists, sentinel, _depth=0):
             cur = []
         else:
             cur.append(ln)
-    if len(groups) != len(byte_lists) or cur:
-        return [False] * len(byte_lists)
+    if len(groups) != len(byte_lists) or cur:   # a string printed the sentinel's text itself: isolate it
+        if len(byte_lists) == 1 or _depth > 5:
+            return [False] * len(byte_lists)
+        h = len(byte_lists) // 2
+        return disassemble(args, byte_lists[:h], sentinel, _depth + 1) + disassemble(args, byte_lists[h:], sentinel, _depth + 1)
     res = []
     for k, (b, g) in enumerate(zip(byte_lists, groups)):
         line_no = 2 * k + 1
